@@ -15,6 +15,7 @@
 #include <memory>
 #include <semaphore.h>
 #include <string>
+#include <tuple>
 #include <sys/mman.h>
 #include <sys/time.h>
 #include <sys/wait.h>
